@@ -32,24 +32,47 @@ var (
 	abSpace = []byte{'a', 'b', ' '}
 )
 
+// consumers: a memoized shared parser S0 that returns a LIST of alternatives (3 or 5: lengths at
+// which Go's append leaves spare capacity) and roots built only from the combinators that consume
+// such a list (Any, Optional, SeqOf). Several consumers at one position, each appending something
+// different, is the history in which sharing of the cached list's backing array becomes visible.
+var consumers = gram.Alphabet{Name: "consumers", Terminals: []byte{'a', 'b'}, Unary: []gram.Kind{gram.Opt}, Binary: []gram.Kind{gram.Any, gram.Seq}, Ternary: []gram.Kind{gram.Any}}
+
+func mustExpr(s string) *gram.Expr {
+	g, err := gram.Parse("N0=" + s)
+	if err != nil {
+		panic(err)
+	}
+	return g.NTs[0]
+}
+
+func consumerSpaces(maxRoot int) []spaceSpec {
+	var out []spaceSpec
+	for _, body := range []string{"(any a a a)", "(any a (seq a a) (seq a a a))", "(any a a a a a)"} {
+		out = append(out, spaceSpec{sp: &gram.Space{Name: "consumers of S0!=" + body, Alpha: consumers, HasRoot: true, Min: 2, Max: maxRoot,
+			FixedShared: []*gram.Expr{mustExpr(body)}, FixedSharedMemo: []bool{true}}, maxLen: 3, alpha: []byte{'a', 'b'}, noSubsets: true})
+	}
+	return out
+}
+
 func c07Specs(tier string) []spaceSpec {
 	if tier == "thorough" {
-		return []spaceSpec{
+		return append(consumerSpaces(9), []spaceSpec{
 			{sp: &gram.Space{Name: "root+inline-memo+trims", Alpha: fullMemoTrim, HasRoot: true, Min: 1, Max: 5}, maxLen: 3, alpha: abSpace},
 			{sp: &gram.Space{Name: "root+1shared+trims", Alpha: fullMemoTrim, NSh: 1, HasRoot: true, Min: 2, Max: 5}, maxLen: 3, alpha: abSpace},
 			{sp: &gram.Space{Name: "root+2shared", Alpha: gram.Full, NSh: 2, HasRoot: true, Min: 3, Max: 6}, maxLen: 3, alpha: ab},
 			{sp: &gram.Space{Name: "full-1nt", Alpha: gram.Full, NNT: 1, Min: 1, Max: 5}, maxLen: 4, alpha: ab},
 			{sp: &gram.Space{Name: "core-1nt", Alpha: gram.Core, NNT: 1, Min: 6, Max: 7}, maxLen: 3, alpha: ab},
 			{sp: &gram.Space{Name: "full-2nt", Alpha: gram.Full, NNT: 2, Min: 2, Max: 5}, maxLen: 3, alpha: ab},
-		}
+		}...)
 	}
-	return []spaceSpec{
+	return append(consumerSpaces(7), []spaceSpec{
 		{sp: &gram.Space{Name: "root+inline-memo+trims", Alpha: fullMemoTrim, HasRoot: true, Min: 1, Max: 4}, maxLen: 3, alpha: abSpace},
 		{sp: &gram.Space{Name: "root+1shared+trims", Alpha: fullMemoTrim, NSh: 1, HasRoot: true, Min: 2, Max: 4}, maxLen: 3, alpha: abSpace},
 		{sp: &gram.Space{Name: "root+2shared", Alpha: gram.Full, NSh: 2, HasRoot: true, Min: 3, Max: 5}, maxLen: 3, alpha: ab},
 		{sp: &gram.Space{Name: "full-1nt", Alpha: gram.Full, NNT: 1, Min: 1, Max: 4}, maxLen: 4, alpha: ab},
 		{sp: &gram.Space{Name: "core-1nt", Alpha: gram.Core, NNT: 1, Min: 5, Max: 6}, maxLen: 3, alpha: ab},
-	}
+	}...)
 }
 
 var c07Seeds = append([]Case{
@@ -401,7 +424,7 @@ func c07Run(env *explore.Env) *explore.Result {
 				return
 			}
 			res.Add("grammars", 1)
-			c07Grammar(res, g, inputs, true, false)
+			c07Grammar(res, g, inputs, !s.noSubsets, false)
 		})
 	}
 	return res
